@@ -7,6 +7,9 @@
 (*          attribute and a method                                                                       *)
 (*   other  an object exported on the OTHER connection only      never  an object never exported at all   *)
 (*   forged an identifier that names nothing                     stale  obj after the peer released it    *)
+(*   never_class   the genuine identifier of a class of the serving process that was never exported        *)
+(*   forged_class  a class-shaped identifier (instance part 0) carrying a real importable class name and  *)
+(*                 a made-up number: identifiers are looked up, never resolved by name                    *)
 (* Code: Connection._dispatch/_dispatch_request/_unbox/_access_attr/_handle_* (rpyc/core/protocol.py),   *)
 (* vinegar.load (rpyc/core/vinegar.py), RefCountingColl (rpyc/lib/colls.py).                              *)
 (*                                                                                                       *)
@@ -20,7 +23,7 @@ Kinds == {"REQ", "REPLY", "EXCMSG", "BADKIND"}
 Handlers == {"PING", "CLOSE", "GETROOT", "GETATTR", "DELATTR", "SETATTR", "CALL", "CALLATTR", "REPR", "STR", "CMP", "HASH",
              "DIR", "PICKLE", "DEL", "INSPECT", "BUFFITER", "OLDSLICING", "CTXEXIT", "INSTANCECHECK", "UNKNOWN"}
 \* what the request is aimed at (first argument): a local reference to ..., or something that is not a local reference
-Targets == {"root", "obj", "other", "never", "forged", "stale", "value", "badlabel", "remote"}
+Targets == {"root", "obj", "other", "never", "forged", "stale", "value", "badlabel", "remote", "never_class", "forged_class"}
 \* attribute / method / operator names used in the request
 \* "shadowed": the object has both X (denied) and exposed_X: asking for X must reach the exposed twin, never X itself
 Names == {"exposed", "denied", "dunder_safe", "nontext", "shadowed"}
@@ -93,7 +96,7 @@ ASSUME \A t \in Templates, s \in States : Expect(t, s) # {}
 \* nothing aimed at an object that was not handed to this peer is ever answered with a plain REPLY only
 ASSUME \A t \in Templates, s \in States :
           t.kind = "REQ" /\ s.alive /\ NeedsTarget(t.handler) /\ t.arity = "ok"
-          /\ (t.target \in {"other", "never", "forged"} \/ (t.target \in {"obj", "stale"} /\ (s.objReleased \/ ~s.objExported)))
+          /\ (t.target \in {"other", "never", "forged", "never_class", "forged_class"} \/ (t.target \in {"obj", "stale"} /\ (s.objReleased \/ ~s.objExported)))
           => Expect(t, s) = {"EXC"}
 ASSUME \A t \in Templates, s \in States :
           t.kind = "REQ" /\ s.alive /\ Legit(t, s) /\ t.arity = "ok" /\ t.handler \in {"SETATTR", "DELATTR", "PICKLE"} => Expect(t, s) = {"EXC"}
